@@ -40,6 +40,14 @@ THEOREMS = [
     "Scenic.C06.evaluated_once",
     "Scenic.C06.evaluate_ok",
     "Scenic.C06.evaluate_total",
+    "Scenic.C06.defaulted_iff",
+    "Scenic.C06.defaulted_perm_invariant",
+    "Scenic.C06.defaulted_final_value",
+    "Scenic.C06.constProps_iff",
+    "Scenic.C06.overrideCheck_none_iff",
+    "Scenic.C06.override_spec",
+    "Scenic.C06.override_perm_invariant",
+    "Scenic.C06.override_refused_sound",
     "Scenic.C06.dup_name_reported",
     "Scenic.C06.final_reported",
     "Scenic.C06.final_reported_normal",
@@ -81,6 +89,7 @@ FINGERPRINTS = {
     "_withSpecifiers": (OT, "Constructible._withSpecifiers"),
     "_prepareSpecifiers": (OT, "Constructible._prepareSpecifiers"),
     "_withProperties": (OT, "Constructible._withProperties"),
+    "_override": (OT, "Constructible._override"),
     "OrientedPoint2D._prepareSpecifiers": (OT, "OrientedPoint2D._prepareSpecifiers"),
     "OrientedPoint2D.__init_subclass__": (OT, "OrientedPoint2D.__init_subclass__"),
     "Specifier": (SP, "Specifier"),
@@ -138,7 +147,11 @@ def spec_token(d):
                      "M" if d["mod"] else "N", jl(map(san, d["modifiable"]))])
 
 
-def class_token(ci):
+def class_token(ci, sampled=None):
+    return (_class_token(ci) + "|" + jl(map(san, sampled))) if sampled else _class_token(ci)
+
+
+def _class_token(ci):
     return jl((f"{san(p)}:{jl(map(san, deps)) if deps else ''}" for p, deps in ci["defaults"]), ";") + "|" + jl(map(san, ci["finals"]))
 
 
@@ -152,14 +165,14 @@ def parse_lean(out):
     """-> ('ok', assign, modifier, trace, final) | ('err', kind) | ('bad', text);
     final = {property: producer of its value} after the evaluation loop, or the text of the model's evaluation error"""
     ws = out.split(" ")
-    if ws[0] == "ok" and len(ws) == 5:
+    if ws[0] == "ok" and len(ws) == 6:
         trace = []
         if ws[3] != "-":
             for e in ws[3].split(";"):
                 node, props = e[:-1].split("[", 1)
                 trace.append((node, [p for p in props.split(",") if p]))
         final = ws[4] if ws[4].startswith("evalerr:") else parse_map(ws[4])
-        return ("ok", parse_map(ws[1]), parse_map(ws[2]), trace, final)
+        return ("ok", parse_map(ws[1]), parse_map(ws[2]), trace, final, sorted(p for p in ws[5].split(",") if p != "-"))
     if ws[0] == "err" and len(ws) == 2:
         return ("err", ws[1])
     return ("bad", out)
@@ -256,6 +269,9 @@ class Hooks:
                     setattr(k, "_specify", f)
             rec["outcome"] = ("ok",)
             rec["final"] = {p: (v.spec if isinstance(v, Tag) else None) for p, v in props.items()}
+            from scenic.core.distributions import needsSampling
+            rec["consts"] = sorted(san(p) for p in consts)
+            rec["sampled"] = sorted(p for p, v in props.items() if needsSampling(v))
             if rec["dry"]:
                 raise Abort()
             return props, consts
@@ -489,6 +505,15 @@ def oracle(ctx, rec, specs, replay):
                     if bad:
                         viol("evaluation-order", f"{n} evaluated before {bad[0]}, whose value it needs")
                         break
+            if rec.get("consts") is not None:
+                # constProps = the properties that fell back to the class default (no specifier names them), minus
+                # those whose value is random
+                named = {san(p) for s_ in specs for p, _ in s_["prios"]}
+                wantc = sorted({san(p) for p, _ in ci["defaults"]} - named - {san(p) for p in rec.get("sampled", [])})
+                if rec["consts"] != wantc:
+                    viol("wrong-constProps", f"constProps {rec['consts']}, expected the defaulted non-random properties {wantc}")
+                else:
+                    ctx.hist("constProps_checked", "with-random-defaults" if rec.get("sampled") else "all-constant")
             if rec.get("final") is not None and rec["dry"]:
                 # the value of every property of the new object is the one produced by its modifier, else its specifier
                 want = {p: modifier.get(p) or n for p, n in assign.items()}
@@ -540,7 +565,7 @@ def compare_with_lean(ctx, rec, lean_out, line, label):
         if lo[0] != "ok":
             bad = f"model: {lean_out[:60]}; real: object created"
         else:
-            _, la, lm, lt, lf = lo
+            _, la, lm, lt, lf, lc = lo
             ln = {n: sorted(ps) for n, ps in lt}
             rn = {n: sorted(ps) for n, ps in rec["trace"]}
             if la != rec["assign"]:
@@ -556,6 +581,8 @@ def compare_with_lean(ctx, rec, lean_out, line, label):
             elif rec.get("final") is not None and rec["dry"] and lf != rec["final"]:
                 d = {p: (lf.get(p), rec["final"].get(p)) for p in set(lf) | set(rec["final"]) if lf.get(p) != rec["final"].get(p)}
                 bad = f"final context differs (model, real): {dict(list(d.items())[:4])}"
+            elif rec.get("consts") is not None and lc != rec["consts"]:
+                bad = f"constProps differ: model {lc} real {rec['consts']} (sampled: {rec.get('sampled')})"
             else:
                 ctx.hist("order_exactly_as_model", [n for n, _ in lt] == [n for n, _ in rec["trace"]])
     elif out[0] == "err":
@@ -584,7 +611,18 @@ def bud(ctx, quick, thorough):
     return ctx.budget(quick, thorough)
 
 
-def par_driver(ctx, lines, k=4):
+def allowance(ctx, share):
+    """wall-clock allowance (seconds) of one stream of the *escalated* pass in the quick tier, None = no limit.
+    A changed fingerprint or a lost translator tie escalates the budgets to the thorough ones; in the quick tier
+    that second pass is time-boxed (VERIF_C06_ESC_SECONDS, default 120 s for all streams together): the quick
+    pass has already run completely, the escalated pass explores further cases (in a shuffled order) until the
+    time is up.  A cut-off only means fewer extra cases (recorded in the notes), never a violation."""
+    if ctx.tier != "quick" or not ctx.extra.get("_esc") or ctx.extra.get("_pass") != "full":
+        return None
+    return float(os.environ.get("VERIF_C06_ESC_SECONDS", "120")) * share
+
+
+def par_driver(ctx, lines, k=3):
     """the Lean driver on several chunks concurrently (it is a separate process per chunk)"""
     if len(lines) < 2000:
         return ctx.driver(lines)
@@ -630,16 +668,20 @@ def make_synthetic_case(rng, idx):
         nmod += mod
         modifiable = sorted(p for p in ps if rng.random() < 0.7) if mod else []
         specs.append({"name": name, "prios": prios, "deps": deps, "mod": mod, "modifiable": modifiable})
-    return {"kind": "synthetic", "defaults": defaults, "specs": specs}
+    rnd = sorted(p for p, _, _ in defaults if rng.random() < 0.2)
+    return {"kind": "synthetic", "defaults": defaults, "specs": specs, "random": rnd}
 
 
 def build_synthetic(case):
     from scenic.core.lazy_eval import DelayedArgument
     from scenic.core.object_types import Constructible
     from scenic.core.specifiers import ModifyingSpecifier, PropertyDefault, Specifier
+    from scenic.core.distributions import Range
     props = {}
+    rnd = set(case.get("random", ()))
     for p, deps, fin in case["defaults"]:
-        props[p] = PropertyDefault(set(deps), {"final"} if fin else set(), (lambda p: (lambda self: ("default", p)))(p))
+        props[p] = PropertyDefault(set(deps), {"final"} if fin else set(),
+                                   (lambda p: (lambda self: Range(0, 1) if p in rnd else ("default", p)))(p))
     cls = type("SynthC06", (Constructible,), {"_scenic_properties": props})
     specs = []
     for d in case["specs"]:
@@ -723,7 +765,7 @@ def run_group(ctx, case, perms, lines, recs):
             break
         specs = rec["prepared"]
         replay = {"kind": "synthetic", "case": case, "perm": list(perm)}
-        ctx.case(("syn", case["defaults"], [case["specs"][j] for j in perm]), nontrivial=k >= 1)
+        ctx.case(("syn", case["defaults"], case.get("random", []), [case["specs"][j] for j in perm]), nontrivial=k >= 1)
         ctx.hist("synthetic_outcome", rec["outcome"][0] + (":" + rec["outcome"][1] if rec["outcome"][0] != "ok" else ""))
         ctx.hist("synthetic_nspecs", k)
         ctx.hist("synthetic_nmodifying", sum(1 for s in specs if s["mod"]))
@@ -731,7 +773,7 @@ def run_group(ctx, case, perms, lines, recs):
             ctx.hist("synthetic_shape", "modifier-of-several-properties")
         found |= oracle(ctx, rec, specs, replay)
         group.append((perm, rec))
-        lines.append("C06 resolve 3 " + class_token(rec["classinfo"]) + " " + " ".join(spec_token(s) for s in specs))
+        lines.append("C06 resolve 3 " + class_token(rec["classinfo"], rec.get("sampled")) + " " + " ".join(spec_token(s) for s in specs))
         recs.append(rec)
     # order independence (hypothesis of the theorem: at most one modifying specifier)
     if group and order_independent(group[0][1]["prepared"]):
@@ -759,7 +801,11 @@ def synthetic_stream(ctx, use_lean):
         for case in REGRESSION_CASES:
             case = json.loads(json.dumps(case))
             found |= run_group(ctx, case, list(itertools.permutations(range(len(case["specs"])))), lines, recs)
+        allow, t0 = allowance(ctx, 0.2), time.time()
         for i in range(n):
+            if allow is not None and time.time() - t0 > allow:
+                ctx.notes.append(f"escalated synthetic stream cut off by the quick-tier time box after {i} of {n} cases")
+                break
             case = make_synthetic_case(rng, i)
             k = len(case["specs"])
             perms = list(itertools.permutations(range(k))) if k <= 3 else [tuple(range(k))] + [tuple(rng.sample(range(k), k)) for _ in range(5)]
@@ -770,6 +816,138 @@ def synthetic_stream(ctx, use_lean):
         outs = par_driver(ctx, lines)
         for line, out, rec in zip(lines, outs, recs):
             compare_with_lean(ctx, rec, out, line, "synthetic")
+    return found
+
+
+# =========================================================================== `_override` stream
+OV_PROPS = ["a", "b", "c", "d", "behavior"]
+
+
+def make_override_case(rng):
+    """an object with properties a-d + behavior (some dynamic, some final) and a list of overriding specifiers;
+    occasionally a specifier names a property the object does not have"""
+    attrs = {p: rng.choice(["", "", "", "dynamic", "final"]) for p in OV_PROPS[:4]}
+    specs = []
+    pool = ["S0", "S1", "S2", "S3"]
+    nmod = 0
+    for i in range(rng.choice([0, 1, 1, 2, 2, 3])):
+        ps = rng.sample(OV_PROPS[:4] + (["zz"] if rng.random() < 0.06 else []), k=rng.choice([1, 1, 2]))
+        mod = nmod == 0 and rng.random() < 0.2
+        nmod += mod
+        specs.append(_sp(pool[i] if rng.random() > 0.04 else "S0", [(q, rng.choice([1, 1, 2, 3])) for q in ps], mod=mod,
+                         modifiable=[q for q in ps if rng.random() < 0.7] if mod else []))
+    return {"kind": "override", "attrs": attrs, "specs": specs}
+
+
+def run_override_case(case, perm):
+    """-> (outcome, classinfo, dyn, props): outcome = ('ok', {prop: producer}) | ('refused', kind) | ('err', kind, ...) | ('crash', ...)"""
+    from scenic.core.object_types import Constructible
+    from scenic.core.specifiers import ModifyingSpecifier, PropertyDefault, Specifier
+    from scenic.core.errors import SpecifierError
+    props = {}
+    for p in OV_PROPS:
+        a = case["attrs"].get(p, "")
+        props[p] = PropertyDefault(set(), {a} if a else set(), (lambda p: (lambda self: None if p == "behavior" else ("old", p)))(p))
+    cls = type("OvC06", (Constructible,), {"_scenic_properties": props})
+    obj = cls._withSpecifiers([], register=False)
+    specs = []
+    for j in perm:
+        d = case["specs"][j]
+        vals = {p: ("val", d["name"], p) for p, _ in d["prios"]}
+        pr = {p: k for p, k in d["prios"]}
+        specs.append(ModifyingSpecifier(d["name"], pr, vals, modifiable_props=set(d["modifiable"])) if d["mod"]
+                     else Specifier(d["name"], pr, vals))
+    old = {p: getattr(obj, p) for p in obj.properties}
+    ci = {"defaults": [], "finals": sorted(cls._finalProperties)}
+    dyn, plist = sorted(cls._dynamicProperties), list(obj.properties)
+    try:
+        obj._override(specs)
+    except SpecifierError as e:
+        msg = str(e)
+        if "cannot override dynamic property" in msg:
+            return ("refused", "dynamic"), ci, dyn, plist
+        if "to override" in msg:
+            return ("refused", "noprop"), ci, dyn, plist
+        return classify_exception(e), ci, dyn, plist
+    except Exception as e:
+        return classify_exception(e), ci, dyn, plist
+    fin = {}
+    for p in obj.properties:
+        v = getattr(obj, p)
+        fin[p] = "d:" + p if v is old.get(p, object()) or v == old.get(p, object()) else ("u:" + v[1] if isinstance(v, tuple) and v[0] == "val" else "?")
+    extra = sorted(set(obj.properties) ^ set(plist))
+    return ("ok", fin, extra), ci, dyn, plist
+
+
+def override_oracle(ctx, case, perm, out, dyn, plist):
+    """the property on the real `_override`, no model"""
+    specs = [case["specs"][j] for j in perm]
+    named = {p for s_ in specs for p, _ in s_["prios"]}
+    replay = {"kind": "override", "case": case, "perm": list(perm)}
+    what = f" [override, attrs {case['attrs']}, specifiers {[(s_['name'], s_['prios']) for s_ in specs]}]"
+    bad_named = sorted(p for p in named if p in dyn or p not in plist)
+    finals = {p for p, a in case["attrs"].items() if a == "final"}
+    if out[0] == "crash":
+        return ctx.violation(f"override-crash:{out[1]}", f"_override raised {out[1]}: {out[2]}" + what, replay)
+    if out[0] == "ok":
+        if bad_named:
+            return ctx.violation("override-unrefused", f"override of dynamic / unknown properties {bad_named} accepted" + what, replay)
+        if named & finals:
+            return ctx.violation("override-final", f"override of final properties {sorted(named & finals)} accepted" + what, replay)
+        touched = sorted(p for p, w in out[1].items() if p not in named and w != "d:" + p)
+        if touched or out[2]:
+            return ctx.violation("override-touched-unnamed", f"properties not named by any specifier changed: {touched}; property set changed by {out[2]}" + what, replay)
+        kept = sorted(p for p, w in out[1].items() if p in named and w == "d:" + p)
+        if kept:
+            return ctx.violation("override-ignored", f"named properties {kept} kept their old value" + what, replay)
+    if out[0] == "refused" and not bad_named:
+        return ctx.violation("override-spurious-refusal", f"refused ({out[1]}) although every named property is a non-dynamic property of the object" + what, replay)
+    return False
+
+
+def override_stream(ctx, use_lean):
+    rng = ctx.rng
+    n = bud(ctx, 400, 4000)
+    found = False
+    lines, outs_real = [], []
+    allow, t0 = allowance(ctx, 0.1), time.time()
+    for i in range(n):
+        if allow is not None and time.time() - t0 > allow:
+            break
+        case = make_override_case(rng)
+        k = len(case["specs"])
+        sigs = {}
+        for perm in itertools.permutations(range(k)):
+            out, ci, dyn, plist = run_override_case(case, perm)
+            ctx.case(("ov", sorted(case["attrs"].items()), [case["specs"][j] for j in perm]), nontrivial=k >= 1)
+            ctx.hist("override_outcome", out[0] + (":" + str(out[1]) if out[0] != "ok" else ""))
+            found |= bool(override_oracle(ctx, case, perm, out, dyn, plist))
+            sigs.setdefault(("ok", tuple(sorted(out[1].items()))) if out[0] == "ok" else (out[0],), perm)
+            toks = [spec_token(case["specs"][j]) for j in perm]
+            lines.append("C06 override " + class_token(ci) + " " + jl(dyn) + " " + jl(plist) + " " + " ".join(toks))
+            outs_real.append((out, case, perm))
+        if len(sigs) > 1 and sum(1 for s_ in case["specs"] if s_["mod"]) <= 1:
+            (s1, p1), (s2, p2) = list(sigs.items())[:2]
+            if ctx.violation("order-dependence:override", f"outcome of _override depends on the order: {p1} -> {s1[0]}, {p2} -> {s2[0]} [{case}]",
+                             {"kind": "override", "case": case, "perm": list(p1), "perm2": list(p2)}):
+                found = True
+    if use_lean and lines:
+        for line, lo, (out, case, perm) in zip(lines, ctx.driver(lines), outs_real):
+            ws = lo.split(" ")
+            if out[0] == "ok":
+                same = ws[0] == "ok" and len(ws) == 3 and parse_map(ws[1]) == out[1]
+            elif out[0] == "refused":
+                same = ws[0] == "refused"   # which of the two refusals comes first depends on the order: kind compared when equal lists
+                same = same and (ws[1] == out[1])
+            elif out[0] == "err":
+                same = ws[0] == "err" and (out[1] == "?" or ws[1] == out[1])
+            else:
+                same = False
+            if not same:
+                nb = ctx.extra.setdefault("_nbad", collections.Counter())
+                nb["override"] += 1
+                if nb["override"] <= 3:
+                    ctx.broken("correspondence", "override model vs Constructible._override", f"model `{lo[:120]}` real {out}  <<{line[:300]}>>")
     return found
 
 
@@ -1223,7 +1401,11 @@ def drive(ns):
     recs = st["records"]
     t0 = time.time()
     n = 0
+    allow = st.get("allow")
     for gi, (cname, idxs) in enumerate(groups):
+        if allow is not None and time.time() - t0 > allow:
+            st["cut"] = (gi, len(groups))
+            break
         cls = ns[cname]
         k = len(idxs)
         perms = list(itertools.permutations(range(k))) if k <= 3 else ([tuple(range(k))] + [tuple(rng.sample(range(k), k)) for _ in range(7)])
@@ -1287,8 +1469,15 @@ def run_language(ctx, mode2d, use_lean, entries):
     the real parser/compiler; returns found"""
     rng = ctx.rng
     allatoms, groups = plan_cases(ctx, rng, mode2d)
+    allow = allowance(ctx, 0.4)
+    if allow is not None:
+        # time-boxed escalated pass: singles first (they decide which atoms exist in this mode), the rest shuffled
+        head = [g for g in groups if len(g[1]) <= 1]
+        tail = [g for g in groups if len(g[1]) > 1]
+        rng.shuffle(tail)
+        groups = head + tail
     state = {"atoms": allatoms, "groups": groups, "mode2d": mode2d, "rng": rng, "records": [], "wet_every": 7,
-             "syntax_cases": [], "syntax_records": []}
+             "syntax_cases": [], "syntax_records": [], "allow": allow}
     _LANG["state"] = state
     HOOKS.install()
     t0 = time.time()
@@ -1318,6 +1507,9 @@ def run_language(ctx, mode2d, use_lean, entries):
                      mode2d, "syntax sample")
     finally:
         HOOKS.uninstall()
+    if state.get("cut"):
+        ctx.notes.append("escalated language stream (%s) cut off by the quick-tier time box after %d of %d groups"
+                         % ("2D" if mode2d else "3D", state["cut"][0], state["cut"][1]))
     ctx.extra.setdefault("timing", {})["drive_%s" % ("2d" if mode2d else "3d")] = round(state.get("drive_time", 0), 1)
     ctx.extra["timing"]["syntax_%s" % ("2d" if mode2d else "3d")] = round(time.time() - t1, 1)
     return evaluate_language(ctx, state, mode2d, use_lean, entries)
@@ -1436,7 +1628,7 @@ def evaluate_language(ctx, state, mode2d, use_lean, entries):
             if mode2d and cname not in ("Point",):
                 fld = any(a[0] == "with heading vf" for a in atoms)
                 m = "2F" if fld else "2"
-            line = f"C06 resolve {m} " + class_token(rec["classinfo"]) + " " + " ".join(toks)
+            line = f"C06 resolve {m} " + class_token(rec["classinfo"], rec.get("sampled")) + " " + " ".join(toks)
             lines.append(line.rstrip())
             items.append(rec)
     # permutation oracle on the real code
@@ -1658,11 +1850,13 @@ def run(ctx):
     import scenic  # noqa
     found = False
     streams = [("synthetic", lambda: synthetic_stream(ctx, use_lean)),
+               ("override", lambda: override_stream(ctx, use_lean)),
                ("merge", lambda: synthetic_merge_stream(ctx, use_lean))]
     for mode2d in (False, True):
         streams.append((f"classes_{'2d' if mode2d else '3d'}", (lambda m: (lambda: language_merge(ctx, m, use_lean)))(mode2d)))
         streams.append((f"language_{'2d' if mode2d else '3d'}", (lambda m: (lambda: run_language(ctx, m, use_lean, entries)))(mode2d)))
     passes = ["quick", "full"] if ctx.budget(0, 1) else ["full"]
+    ctx.extra["_esc"] = len(passes) == 2
     for pname in passes:
         ctx.extra["_pass"] = pname
         for name, fn in streams:
@@ -1678,6 +1872,7 @@ def run(ctx):
         if found:
             break
     ctx.extra.pop("_pass", None)
+    ctx.extra.pop("_esc", None)
     ctx.extra.pop("_nbad", None)
     ctx.resolve_brokens(found)
 
@@ -1733,6 +1928,17 @@ def replay(ctx, path):
                 rctx.violation("order-dependence:synthetic", f"outcome depends on the order: {sigs[0][:2]} vs {sigs[1][:2]}", {})
         finally:
             HOOKS.uninstall()
+    elif kind == "override":
+        sigs = []
+        for key in ("perm", "perm2"):
+            if key in rep:
+                out, ci, dyn, plist = run_override_case(rep["case"], rep[key])
+                print(f"override, order {rep[key]}: attrs {rep['case']['attrs']} specifiers {[(s['name'], s['prios']) for s in rep['case']['specs']]}")
+                print("   outcome:", out)
+                override_oracle(rctx, rep["case"], rep[key], out, dyn, plist)
+                sigs.append(("ok", tuple(sorted(out[1].items()))) if out[0] == "ok" else (out[0],))
+        if len(sigs) == 2 and sigs[0] != sigs[1]:
+            rctx.violation("order-dependence:override", f"outcome of _override depends on the order: {sigs[0]} vs {sigs[1]}", {})
     elif kind == "language":
         from translate import spectable
         sigs = []
